@@ -73,4 +73,68 @@ theorem withoutSegment_eq (segs : List Seg) (i : Nat) :
   unfold withoutSegment lsws_not_found
   simp only [lsws_found_eq]
 
+/-! ### `calc_segment_alignment`, `get_ordered_segments`, `is_subsequence_of` -/
+
+/-- `sect->get_addr_align() > seg->get_align()` -/
+@[simp] theorem save_csa_raise_eq (a g : BitVec 64) : save_csa_raise a g = BitVec.ult g a := rfl
+/-- `worklist[nextSlot]->get_offset() == 0` -/
+@[simp] theorem save_gos_slot_zero_eq (off : BitVec 64) : save_gos_slot_zero off = (off == 0) := rfl
+/-- `i != nextSlot && worklist[i]->is_offset_initialized() && worklist[i]->get_offset() == 0` -/
+theorem save_gos_front_eq (i ns : BitVec 64) (s : Bool) (off : BitVec 64) :
+    save_gos_front i ns s off = (i != ns && s && off == 0) := rfl
+/-- a segment that is not at file offset 0 is never moved to the front -/
+theorem save_gos_front_false (i ns : BitVec 64) (s : Bool) (off : BitVec 64) (h : (s && off == 0) = false) :
+    save_gos_front i ns s off = false := by
+  rw [save_gos_front_eq, Bool.and_assoc, h, Bool.and_false]
+/-- `sections1.size() < sections2.size()` -/
+@[simp] theorem save_subseq_shorter_eq (a b : BitVec 64) : save_subseq_shorter a b = BitVec.ult a b := rfl
+
+/-! ### `elfio::save` -/
+
+/-- `segments.size() > 0 ? header->get_header_size() : 0` (argument of `set_segments_offset`) on the
+    segment count as the model passes it -/
+theorem save_phoff_toNat (n : Nat) (eh : BitVec 16) :
+    (save_phoff (BitVec.ofNat 16 (n % 65536)) eh).toNat = if n % 65536 > 0 then eh.toNat else 0 := by
+  have hlt : n % 65536 < 65536 := Nat.mod_lt _ (by decide)
+  have h : (BitVec.setWidth 32 (BitVec.ofNat 16 (n % 65536))).toNat = n % 65536 := by
+    simp only [BitVec.toNat_setWidth, BitVec.toNat_ofNat, Nat.reducePow]; omega
+  have hi : (BitVec.setWidth 32 (BitVec.ofNat 16 (n % 65536))).toInt = ((n % 65536 : Nat) : Int) := by
+    rw [BitVec.toInt_eq_toNat_cond, h]; simp only [Nat.reducePow]; split <;> omega
+  have h0 : (0#32).toInt = 0 := by decide
+  have he := eh.isLt
+  unfold save_phoff
+  simp only [BitVec.slt, hi, h0]
+  by_cases hn : n % 65536 > 0
+  · have : decide ((0 : Int) < ((n % 65536 : Nat) : Int)) = true := by simp only [decide_eq_true_eq]; omega
+    simp only [this, if_true, hn]
+    have hm : (BitVec.setWidth 32 eh).msb = false := by
+      rw [BitVec.msb_eq_decide]
+      simp only [BitVec.toNat_setWidth, Nat.reducePow, Nat.reduceSub, decide_eq_false_iff_not]; omega
+    rw [BitVec.signExtend_eq_setWidth_of_msb_false hm]
+    simp only [BitVec.toNat_setWidth, Nat.reducePow]; omega
+  · have : decide ((0 : Int) < ((n % 65536 : Nat) : Int)) = false := by simp only [decide_eq_false_iff_not]; omega
+    simp only [this, Bool.false_eq_true, if_false, hn]
+    decide
+
+/-- `header->set_sections_offset( 0 )` -/
+@[simp] theorem save_shoff0_toNat : save_shoff0.toNat = 0 := by decide
+
+/-- `!stream || header == nullptr` with a header present: the stream's fail state decides -/
+theorem save_entry_refused_some {α : Type} (f : Bool) (h : α) : save_entry_refused f (some h).isSome = f := by
+  cases f <;> rfl
+/-- `!stream || header == nullptr` without a header: refused -/
+theorem save_entry_refused_none {α : Type} (f : Bool) : save_entry_refused f (none : Option α).isSome = true := by
+  cases f <;> rfl
+
+/-- the three `is_still_good = is_still_good && …` of the write phase -/
+@[simp] theorem save_good3_eq (a b : Bool) : save_good3 a b = (a && b) := rfl
+@[simp] theorem save_good4_eq (a b : Bool) : save_good4 a b = (a && b) := rfl
+@[simp] theorem save_good5_eq (a b : Bool) : save_good5 a b = (a && b) := rfl
+/-- the layout passes succeeded: `is_still_good` is true when the header is written -/
+@[simp] theorem saveGoodAfterLayout_true : saveGoodAfterLayout true = true := by decide
+/-- `layout_segments_and_their_sections` failed: `is_still_good` stays false -/
+@[simp] theorem saveGoodAfterLayout_false : saveGoodAfterLayout false = false := by decide
+/-- `return is_still_good && !stream.fail()` with `is_still_good = false` -/
+@[simp] theorem save_result_false (f : Bool) : save_result false f = false := rfl
+
 end ElfioVerif
